@@ -11,10 +11,12 @@ BUDGET_S = {"quick": 150, "thorough": 3000}
 MAXLEN = {"quick": 4, "thorough": 5}
 EXHAUSTIVE = {"quick": "all line sequences of length <=4 over the alphabet x the pattern family",
               "thorough": "all line sequences of length <=5 over the alphabet x the pattern family"}
-ALPHA = ["abc", "ABC", "  abc", "abc  ", "\tabc\t", "", "   ", "abc1", "1abc", "ab", "abc def", "x"]
+ALPHA = ["abc", "ABC", "  abc", "abc  ", "\tabc\t", "", "   ", "abc1", "1abc", "ab", "abc def", "x",
+         # Unicode White_Space (what "trimming" and "blank" mean for a Rust str): ideographic space, no-break space
+         "\u3000abc", "abc\u00a0", "\u3000"]
 PATTERNS = [r"^[a-z]+$", r"[a-z]+", r"^abc", r"abc$", r"^\s", r"\s$", r"^[a-z]{3}$", r"^(abc|x)$", r"\d", r"^.*$", r"^$", r"c d"]
-RULE = ("Bounded-exhaustive: every sequence of up to MAXLEN lines over a 12-symbol alphabet (matching, non-matching, "
-        "indented, trailing-blank, blank and partially matching lines) x 12 anchored/unanchored patterns (including "
+RULE = ("Bounded-exhaustive: every sequence of up to MAXLEN lines over a 15-symbol alphabet (matching, non-matching, "
+        "indented, trailing-blank, blank, Unicode-whitespace-padded and partially matching lines) x 12 anchored/unanchored patterns (including "
         "patterns that only an untrimmed line could match, `^\\s` and `\\s$`); plus random long blocks with Unicode text "
         "and CRLF. Judged by a reference model on presence, count and the designated first failing line (trimmed "
         "extent). A case is one block; non-trivial = >=2 non-blank lines; distinct = hash of (attributes, lines).")
